@@ -304,7 +304,7 @@ def run(ctx: Ctx):
     ijobs = []
     for kind, level in (("key", "inner"), ("unique", "inner"), ("key", "outer")):
         consts = {"NF": 1, "KeyKind": f'"{kind}"', "Level": f'"{level}"', "MaxRows": 3, "MaxScopes": 2,
-                  "RowKinds": '{"k", "f"}'}
+                  "RowKinds": '{"k", "f"}', "IdVer": '"1.0"'}
         ri = ctx.tlc("Identity", "Identity.cfg", constants=consts, tag=f"ident-{kind}-{level}", workers=4)
         irecs = [x for x in ri.json_records() if c08.canonical(x)]
         if not thorough:
